@@ -98,7 +98,7 @@ Proof.
   destruct (label_rank lb (map fst r)); reflexivity.
 Qed.
 
-Lemma label_rank_lt lb labels j : label_rank lb labels = Some j -> j < length labels.
+Lemma label_rank_bound lb labels j : label_rank lb labels = Some j -> j < length labels.
 Proof.
   revert j; induction labels as [|x r IH]; intros j; cbn [label_rank]; [discriminate|].
   destruct (Nat.eqb x lb); [intros H; inversion H; cbn; lia|].
@@ -132,7 +132,7 @@ Proof.
     destruct (advance qn l i step pfx) as [i1|]; [|reflexivity].
     rewrite find_child_rank.
     destruct (label_rank (label_at big qn i1) (map fst ch)) as [j|] eqn:Er; [|reflexivity].
-    pose proof (label_rank_lt _ _ _ Er) as Hj. rewrite map_length in Hj.
+    pose proof (label_rank_bound _ _ _ Er) as Hj. rewrite map_length in Hj.
     destruct (nth_error ch j) as [[x c]|] eqn:En; [|apply nth_error_None in En; lia].
     (* the id of the j-th child *)
     pose proof (ids_children r I) as Hc. rewrite Forall_forall in Hc. specialize (Hc _ Ht). cbn [child_ids_ok] in Hc.
@@ -167,4 +167,184 @@ Proof.
   destruct (sess_tail c v) as [tail|].
   - destruct (Nat.eqb i (length (nibs q))); [reflexivity|]. destruct (bytes_eqb tail (skipn (i / 2) q)); reflexivity.
   - destruct (Nat.eqb i (length (nibs q))); reflexivity.
+Qed.
+
+(* ---------- searchID on ids ---------- *)
+Definition oid (x : option tree) : option nat := option_map tree_id x.
+Definition sres_ids (x : sres) : option nat * option (nat * nat * bool) * option nat :=
+  let '(lc, eq, rc) := x in (oid lc, ids_of eq, oid rc).
+
+Lemma search_go_rank lb lc rc k : forall ch prev,
+  search_go lb lc rc k ch prev =
+  let '(n, has) := label_rank_lt lb (map fst ch) in
+  let lc' := match n with 0 => or_else prev lc | S m => option_map snd (nth_error ch m) end in
+  if has then
+    match nth_error ch n with
+    | Some (_, c) => k c lc' (match nth_error ch (S n) with Some (_, c') => Some c' | None => rc end)
+    | None => (lc', None, rc)
+    end
+  else (lc', None, match nth_error ch n with Some (_, c) => Some c | None => rc end).
+Proof.
+  induction ch as [|[x c] rest IH]; intros prev; [reflexivity|].
+  cbn [search_go map fst label_rank_lt].
+  destruct (x <? lb) eqn:Elt.
+  - rewrite IH. destruct (label_rank_lt lb (map fst rest)) as [n has]. cbv zeta.
+    destruct n as [|m]; cbn [nth_error option_map snd or_else]; reflexivity.
+  - cbv zeta. cbn [nth_error]. destruct (Nat.eqb x lb); [|reflexivity].
+    destruct rest as [|[y c'] rest']; reflexivity.
+Qed.
+
+Lemma label_rank_lt_le lb labels : fst (label_rank_lt lb labels) <= length labels.
+Proof.
+  induction labels as [|x r IH]; cbn [label_rank_lt]; [cbn; lia|].
+  destruct (x <? lb); [|cbn; lia]. destruct (label_rank_lt lb r) as [n h]. cbn [fst length] in *. lia.
+Qed.
+
+Lemma label_rank_lt_has lb labels n : label_rank_lt lb labels = (n, true) -> n < length labels.
+Proof.
+  revert n; induction labels as [|x r IH]; intros n; cbn [label_rank_lt]; [discriminate|].
+  destruct (x <? lb).
+  - destruct (label_rank_lt lb r) as [m h]. intros H; inversion H; subst. specialize (IH m eq_refl). cbn. lia.
+  - intros H; inversion H. cbn. lia.
+Qed.
+
+Lemma child_id r id big step pfx fc ch j x c :
+  IdsOK r -> In (Inner id big step pfx fc ch) (subtrees r) -> nth_error ch j = Some (x, c) -> tree_id c = fc + j.
+Proof.
+  intros I Ht En.
+  pose proof (ids_children r I) as Hc. rewrite Forall_forall in Hc. specialize (Hc _ Ht). cbn [child_ids_ok] in Hc.
+  assert (j < length ch) as Hj by (apply nth_error_Some; rewrite En; discriminate).
+  assert (nth_error (map tree_id (map snd ch)) j = Some (tree_id c)) as H1 by (rewrite !nth_error_map, En; reflexivity).
+  rewrite Hc in H1. rewrite nth_error_nth' with (d := 0) in H1 by (rewrite seq_length; exact Hj).
+  rewrite seq_nth in H1 by exact Hj. injection H1 as H1'. symmetry. exact H1'.
+Qed.
+
+Lemma fsearch_down_sim r qn l : IdsOK r ->
+  forall t, In t (subtrees r) -> forall fuel i lc rc, height t <= fuel ->
+  fsearch_down fuel r qn l (tree_id t) i (oid lc) (oid rc) = Ok (sres_ids (search_down qn l t i lc rc)).
+Proof.
+  intros I. induction t as [id ord tail eidx|id big step pfx fc ch IH] using tree_ind'; intros Ht fuel i lc rc Hfuel.
+  - destruct fuel as [|f]; [cbn in Hfuel; lia|]. cbn [fsearch_down]. rewrite (node_at_self r _ I Ht). reflexivity.
+  - destruct fuel as [|f]; [cbn [height] in Hfuel; lia|]. cbn [fsearch_down].
+    rewrite (node_at_self r _ I Ht). rewrite search_down_inner.
+    destruct (advance3 qn l i step pfx) as [i1| |]; try reflexivity.
+    rewrite search_go_rank.
+    pose proof (label_rank_lt_le (label_at big qn i1) (map fst ch)) as Hn.
+    destruct (label_rank_lt (label_at big qn i1) (map fst ch)) as [n has] eqn:Er. cbv zeta. cbn [fst] in Hn. rewrite map_length in Hn.
+    (* the left candidate *)
+    assert (oid (match n with 0 => or_else None lc | S m => option_map snd (nth_error ch m) end) =
+            (if 0 <? n then Some (fc + n - 1) else oid lc)) as HL.
+    { destruct n as [|m]; [reflexivity|]. cbn [Nat.ltb Nat.leb].
+      destruct (nth_error ch m) as [[y d]|] eqn:Em; [|apply nth_error_None in Em; lia].
+      cbn [option_map snd oid]. rewrite (child_id r _ _ _ _ _ _ _ _ _ I Ht Em). f_equal. lia. }
+    destruct has.
+    + pose proof (label_rank_lt_has _ _ _ Er) as Hlt. rewrite map_length in Hlt.
+      destruct (nth_error ch n) as [[x c]|] eqn:En; [|apply nth_error_None in En; lia].
+      pose proof (child_id r _ _ _ _ _ _ _ _ _ I Ht En) as Hcid.
+      assert (oid (match nth_error ch (S n) with Some (_, c') => Some c' | None => rc end) =
+              (if fc + n + 1 <? fc + length ch then Some (fc + n + 1) else oid rc)) as HR.
+      { destruct (nth_error ch (S n)) as [[y d]|] eqn:Es.
+        - assert (S n < length ch) by (apply nth_error_Some; rewrite Es; discriminate).
+          destruct (Nat.ltb_spec (fc + n + 1) (fc + length ch)); [|lia].
+          cbn [oid option_map]. rewrite (child_id r _ _ _ _ _ _ _ _ _ I Ht Es). f_equal. lia.
+        - apply nth_error_None in Es. destruct (Nat.ltb_spec (fc + n + 1) (fc + length ch)); [lia|reflexivity]. }
+      rewrite <- HL, <- HR. clear HL HR.
+      destruct (Nat.eqb i1 l).
+      * cbn [sres_ids ids_of]. rewrite Hcid. reflexivity.
+      * rewrite <- Hcid. rewrite Forall_forall in IH.
+        assert (In (x, c) ch) as Hin by (eapply nth_error_In; exact En).
+        apply (IH _ Hin).
+        -- eapply subtrees_trans; [exact Ht|eapply subtree_child; exact Hin].
+        -- cbn [snd]. pose proof (height_child id big step pfx fc ch x c Hin). lia.
+    + rewrite <- HL. cbn [sres_ids ids_of]. f_equal.
+      destruct (nth_error ch n) as [[x c]|] eqn:En.
+      * assert (n < length ch) by (apply nth_error_Some; rewrite En; discriminate).
+        destruct (Nat.ltb_spec (fc + n) (fc + length ch)); [|lia].
+        cbn [oid option_map]. rewrite (child_id r _ _ _ _ _ _ _ _ _ I Ht En). reflexivity.
+      * apply nth_error_None in En. destruct (Nat.ltb_spec (fc + n) (fc + length ch)); [lia|reflexivity].
+Qed.
+
+Lemma fleftmost_sim r : IdsOK r -> forall t, In t (subtrees r) -> has_kids t ->
+  forall fuel, height t <= fuel -> fleftmost fuel r (tree_id t) = Ok (tree_id (leftmost t)).
+Proof.
+  intros I. induction t as [id ord tail eidx|id big step pfx fc ch IH] using tree_ind'; intros Ht Hk fuel Hfuel.
+  - destruct fuel as [|f]; [cbn in Hfuel; lia|]. cbn [fleftmost]. rewrite (node_at_self r _ I Ht). reflexivity.
+  - destruct fuel as [|f]; [cbn [height] in Hfuel; lia|]. cbn [fleftmost]. rewrite (node_at_self r _ I Ht).
+    apply has_kids_inner in Hk. destruct Hk as [Hne Hkc].
+    destruct ch as [|[x c] rest]; [congruence|]. cbn [leftmost].
+    assert (nth_error ((x, c) :: rest) 0 = Some (x, c)) as En by reflexivity.
+    pose proof (child_id r _ _ _ _ _ _ _ _ _ I Ht En) as Hcid. rewrite Nat.add_0_r in Hcid. rewrite <- Hcid.
+    rewrite Forall_forall in IH, Hkc.
+    assert (In (x, c) ((x, c) :: rest)) as Hin by (left; reflexivity).
+    apply (IH _ Hin); [eapply subtrees_trans; [exact Ht|eapply subtree_child; exact Hin]|apply (Hkc _ Hin)|].
+    cbn [snd]. pose proof (height_child id big step pfx fc ((x, c) :: rest) x c Hin). lia.
+Qed.
+
+Lemma frightmost_sim r : IdsOK r -> forall t, In t (subtrees r) -> has_kids t ->
+  forall fuel, height t <= fuel -> frightmost fuel r (tree_id t) = Ok (tree_id (rightmost t)).
+Proof.
+  intros I. induction t as [id ord tail eidx|id big step pfx fc ch IH] using tree_ind'; intros Ht Hk fuel Hfuel.
+  - destruct fuel as [|f]; [cbn in Hfuel; lia|]. cbn [frightmost]. rewrite (node_at_self r _ I Ht). reflexivity.
+  - destruct fuel as [|f]; [cbn [height] in Hfuel; lia|]. cbn [frightmost]. rewrite (node_at_self r _ I Ht).
+    apply has_kids_inner in Hk. destruct Hk as [Hne Hkc].
+    destruct (exists_last Hne) as (ch' & [x c] & Ech). subst ch.
+    rewrite rightmost_inner.
+    assert (nth_error (ch' ++ [(x, c)]) (length ch') = Some (x, c)) as En
+      by (rewrite nth_error_app2, Nat.sub_diag by lia; reflexivity).
+    pose proof (child_id r _ _ _ _ _ _ _ _ _ I Ht En) as Hcid.
+    rewrite app_length. cbn [length]. replace (fc + (length ch' + 1) - 1) with (fc + length ch') by lia. rewrite <- Hcid.
+    assert (In (x, c) (ch' ++ [(x, c)])) as Hin by (apply in_or_app; right; left; reflexivity).
+    rewrite Forall_forall in IH, Hkc.
+    apply (IH _ Hin); [eapply subtrees_trans; [exact Ht|eapply subtree_child; exact Hin]|apply (Hkc _ Hin)|].
+    cbn [snd]. pose proof (height_child id big step pfx fc _ x c Hin). lia.
+Qed.
+
+Lemma height_sub : forall t c, In c (subtrees t) -> height c <= height t.
+Proof.
+  induction t as [id ord tail eidx|id big step pfx fc ch IH] using tree_ind'; intros c Hc.
+  - destruct Hc as [<-|[]]. lia.
+  - rewrite subtrees_inner in Hc. destruct Hc as [<-|Hc]; [lia|].
+    apply in_flat_map in Hc. destruct Hc as ([x d] & Hd & Hc). cbn [snd] in Hc.
+    rewrite Forall_forall in IH. specialize (IH _ Hd c Hc). cbn [snd] in IH.
+    pose proof (height_child id big step pfx fc ch x d Hd). lia.
+Qed.
+
+(* searchID on ids = searchID on the tree *)
+Theorem fsearchid_searchid o keys vals T q :
+  build o keys vals = Ok T ->
+  fsearchid T q = Ok (let '(l, e, rr) := searchid T q in (oid l, oid e, oid rr)).
+Proof.
+  intros Hb. unfold fsearchid, searchid.
+  destruct (t_root T) as [r|] eqn:Hr; [|reflexivity]. cbv zeta.
+  pose proof (built_ids_ok o keys vals T r Hb Hr) as I.
+  destruct (build_ok _ _ _ _ Hb) as [[_ ->]|(r' & lidx & B)]; [discriminate|].
+  assert (r' = r) as -> by (pose proof (bt_root _ _ _ _ _ _ B) as H; rewrite Hr in H; inversion H; reflexivity).
+  pose proof (root_inv o keys vals (bt_sorted _ _ _ _ _ _ B) (bt_nonempty _ _ _ _ _ _ B)) as SI.
+  pose proof (trie_of_has_kids o r _ (bt_trie _ _ _ _ _ _ B) SI) as Hk.
+  assert (tree_id r = 0) as Hid0.
+  { destruct (built_bfs _ _ _ _ Hb r Hr) as (n & H). destruct n as [|n]; [cbn in H; discriminate|].
+    destruct H as (H1 & _). cbn in H1. inversion H1. reflexivity. }
+  pose proof (fsearch_down_sim r (nibs q) (length (nibs q)) I r (subtrees_self r) (S (height r)) 0 None None ltac:(lia)) as Hs.
+  rewrite Hid0 in Hs. cbn [oid option_map] in Hs. rewrite Hs. unfold bind.
+  pose proof (search_down_from (nibs q) (length (nibs q)) r 0 None None) as [Hf1 Hf2].
+  pose proof (search_down_seq o q r _ (bt_trie _ _ _ _ _ _ B) SI (Nat.le_0_l _) None None) as Hseq.
+  change (s_from (root_subset o keys vals)) with 0 in Hseq.
+  destruct (search_down (nibs q) (length (nibs q)) r 0 None None) as [[lc eq] rc] eqn:Esd.
+  unfold seq in Hseq. cbn [fst snd] in Hf1, Hf2, Hseq. cbn [sres_ids].
+  (* the two outer candidates *)
+  assert (forall m, In m (subtrees r) -> frightmost (S (height r)) r (tree_id m) = Ok (tree_id (rightmost m))) as HRm.
+  { intros m Hx. rewrite (frightmost_sim r I m Hx (has_kids_sub r m Hk Hx)); [reflexivity|]. pose proof (height_sub r m Hx). lia. }
+  assert (forall m, In m (subtrees r) -> fleftmost (S (height r)) r (tree_id m) = Ok (tree_id (leftmost m))) as HLm.
+  { intros m Hx. rewrite (fleftmost_sim r I m Hx (has_kids_sub r m Hk Hx)); [reflexivity|]. pose proof (height_sub r m Hx). lia. }
+  assert (forall x, from_tree r None x -> match x with Some m => In m (subtrees r) | None => True end) as Hin.
+  { intros [m|] H; [cbn in H; destruct H as [H|H]; [discriminate|exact H]|exact Logic.I]. }
+  pose proof (Hin lc Hf1) as Hlc. pose proof (Hin rc Hf2) as Hrc.
+  destruct eq as [[[c i] v]|]; cbn [ids_of].
+  - assert (In c (subtrees r)) as Hc by (eapply descend_subtree; symmetry; exact Hseq).
+    destruct (i <=? length (nibs q)).
+    + rewrite (node_at_self r c I Hc).
+      destruct (if t_leafpfx T then bytes_cmp (skipn (i / 2) q) match sess_tail c v with Some t => t | None => [] end else Eq);
+        destruct lc as [ml|], rc as [mr|]; cbn [oid option_map]; rewrite ?HRm, ?HLm by assumption; reflexivity.
+    + destruct lc as [ml|], rc as [mr|]; cbn [oid option_map]; rewrite ?HRm, ?HLm by assumption; reflexivity.
+  - destruct lc as [ml|], rc as [mr|]; cbn [oid option_map]; rewrite ?HRm, ?HLm by assumption; reflexivity.
 Qed.
